@@ -318,6 +318,34 @@ def oracle(ctx):
                 fail = f'PodmanArgs must sit directly before the object (image or --rootfs) at {obj}: --pa at {na.index("--pa")}'
         if fail:
             res.oracle_failures.append(dict(op=op, input=text, impl_output=str(na), oracle_expectation=fail))
+    # keys whose option names an object that another unit of the run creates: the option is the same in whichever order the two files are
+    # found (the real binary, the two units in two search directories, both orders)
+    import e2e, re as _re
+    xcases = []
+    for ty in ('container', 'build', 'pod', 'kube'):
+        for line, want in (('Volume=cache.volume:/c:Z', ['-v', 'systemd-cache:/c:Z']), ('Network=net.network', ['--network', 'systemd-net'])):
+            if line.split('=')[0] not in ctx.tables['supported'][G.SUP[ty]]:
+                continue
+            for first in ('referrer', 'target'):
+                xcases.append((ty, line, want, first))
+
+    def run_x(c):
+        ty, line, want, first = c
+        ref = '[' + G.SEC[ty] + ']\n' + ''.join(b + '\n' for b in G.BASE[ty]) + line + '\n'
+        tgt_name = 'cache.volume' if 'volume' in line else 'net.network'
+        tgt = '[Volume]\n' if 'volume' in line else '[Network]\n'
+        a, b = ('d0', 'd1') if first == 'referrer' else ('d1', 'd0')
+        r = e2e.run_case({f'{a}/app.{ty}': ref, f'{b}/{tgt_name}': tgt}, dirs=('d0', 'd1'), dry_run=True)
+        return r['printed'], r['exit'], r['stderr']
+    for (ty, line, want, first), (printed, rc, se) in zip(xcases, e2e.pmap(run_x, xcases)):
+        res.oracle_evals += 1
+        texts = [v for k, v in printed.items() if _re.search(r'^SourcePath=.*app\.' + ty + '$', v, _re.M)]
+        cmd = _re.findall(r'^(?:ExecStartPre|ExecStart)=(.*(?: pod create | run | build | kube play ).*)$', texts[0], _re.M) if texts else []
+        b = ctx.model(['spec_split_exec\t' + hx(cmd[0])])[0] if cmd else 'none'
+        av = [unhx(t) for t in b[4:-1].split(' ') if t] if b.startswith('ok [') else []
+        if not any(av[i:i + 2] == want for i in range(len(av))):
+            res.oracle_failures.append(dict(op='e2e two units', input=dict(referrer=f'app.{ty}: {line}', found_first=first), impl_output=dict(exit=rc, argv=av, errors=e2e.error_lines(se)[:3]),
+                                            oracle_expectation=f'{line} adds {want}, in whichever order the two files are discovered'))
     res.samples.append(dict(kind='oracle-case', unit=metas[0][5], key=metas[0][1]))
     res.notes.append(f'delta oracle: {len(metas)} (type, key, value) cases over {sum(len(key_specs(t)) for t in G.TYPES)} documented keys with a stated option group')
     ctx.log(f'oracle: {res.oracle_evals} evaluations, {len(res.oracle_failures)} failures')
